@@ -1,24 +1,6 @@
 (* Corr_C10.v — comparison and monitor for C10 (a login yields a session only for an e-mail the
    identity provider vouches for).  No proofs here. *)
-From Coq Require Export Uint63.
 From V Require Export Base CorrBase IdToken.
-
-(* Case shards carry every byte string as [U [i1; i2; ...]%uint63]: seven bytes per primitive
-   integer under a leading 1 (0x01 b1 .. b7).  Reading a shard of N-literal lists costs coqc
-   ~100 us per byte (number-notation interpretation); primitive integers are read 20 times faster.
-   Only the shards use [U]; no theorem mentions it. *)
-Fixpoint byte_n (fuel : nat) (i : Uint63.int) : N :=
-  match fuel with
-  | O => 0
-  | S f => (if Uint63.eqb (Uint63.land i 1%uint63) 0%uint63 then 0 else 1) + 2 * byte_n f (Uint63.lsr i 1%uint63)
-  end.
-Fixpoint chunk (fuel : nat) (i : Uint63.int) (acc : str) : str :=
-  match fuel with
-  | O => acc
-  | S f => if Uint63.eqb i 1%uint63 then acc
-           else chunk f (Uint63.lsr i 8%uint63) (byte_n 8 (Uint63.land i 255%uint63) :: acc)
-  end.
-Definition U (l : list Uint63.int) : str := flat_map (fun i => chunk 8 i []) l.
 
 (* THE SWITCH: false = today's emailFromIDToken (indexes jwt[1] unconditionally);
    true = after the fix that rejects len(jwt) < 2 with an error.  Flip this one line (and retire
